@@ -229,6 +229,66 @@ func verifRedigoDial(network, addr string, a, b, c time.Duration) (redigo.Conn, 
 }
 `)
 
+	// 2b. dbSync: in a select that receives from the command queue (x.sendBuf), every case that
+	// merely receives from another channel (the flush ticker/timer) starts with verifTimerCase():
+	// the point between "the timer fired" and "the sender looks at the queue"
+	rewriteAll("redis-shake/dbSync", func(fset *token.FileSet, file *ast.File) bool {
+		n := 0
+		isQueueRecv := func(st ast.Stmt) bool {
+			var x ast.Expr
+			switch s := st.(type) {
+			case *ast.AssignStmt:
+				if len(s.Rhs) == 1 {
+					x = s.Rhs[0]
+				}
+			case *ast.ExprStmt:
+				x = s.X
+			}
+			u, ok := x.(*ast.UnaryExpr)
+			if !ok || u.Op != token.ARROW {
+				return false
+			}
+			sel, ok := u.X.(*ast.SelectorExpr)
+			return ok && sel.Sel.Name == "sendBuf"
+		}
+		ast.Inspect(file, func(nd ast.Node) bool {
+			ss, ok := nd.(*ast.SelectStmt)
+			if !ok {
+				return true
+			}
+			hasQueue := false
+			for _, c := range ss.Body.List {
+				if cc := c.(*ast.CommClause); cc.Comm != nil && isQueueRecv(cc.Comm) {
+					hasQueue = true
+				}
+			}
+			if !hasQueue {
+				return true
+			}
+			for _, c := range ss.Body.List {
+				cc := c.(*ast.CommClause)
+				if cc.Comm == nil || isQueueRecv(cc.Comm) {
+					continue
+				}
+				if es, ok := cc.Comm.(*ast.ExprStmt); ok {
+					if u, ok := es.X.(*ast.UnaryExpr); ok && u.Op == token.ARROW {
+						call := &ast.ExprStmt{X: &ast.CallExpr{Fun: ast.NewIdent("verifTimerCase")}}
+						cc.Body = append([]ast.Stmt{call}, cc.Body...)
+						n++
+					}
+				}
+			}
+			return true
+		})
+		return n > 0
+	}, "")
+	ov.Replace[filepath.Join(*repo, "redis-shake/dbSync/zz_verif_timercase.go")] = writeGen(gen, "zz_verif_timercase.go", `package dbSync
+
+import "github.com/alibaba/RedisShake/verifrt/hook"
+
+func verifTimerCase() { hook.TimerCase() }
+`)
+
 	// 3. pipe.go / backlog.go: import "sync" -> vsync
 	for _, dir := range []string{"pkg/libs/io/pipe", "pkg/libs/io/backlog"} {
 		rewriteAll(dir, func(fset *token.FileSet, file *ast.File) bool {
